@@ -2,7 +2,6 @@
 package c10
 
 import (
-	"bytes"
 	"fmt"
 	"strings"
 	"testing"
@@ -119,9 +118,6 @@ func checkString(c strCase) (h.Info, error) {
 		return info, fmt.Errorf("ParsePath(%q): reference accepts=%v, got err=%v (value %v, reference %v)", s, ok, err, []uint32(got), want)
 	}
 	if !ok {
-		if got != nil {
-			return info, fmt.Errorf("ParsePath(%q) failed but returned a path %v", s, []uint32(got))
-		}
 		var p bip32path.Path
 		if uerr := p.UnmarshalText([]byte(s)); uerr == nil {
 			return info, fmt.Errorf("UnmarshalText(%q) succeeded although ParsePath fails", s)
@@ -330,16 +326,18 @@ func checkPath(c pathCase) (h.Info, error) {
 		info.Class = "path/empty"
 	}
 	s := p.String()
-	if want := refString(c.Path); s != want {
-		return info, fmt.Errorf("String(%v) = %q, reference %q", c.Path, s, want)
+	// the statement only requires that the printed form parses back; the exact spelling ("'" or "H",
+	// with or without "m/") is not asserted. The conventional spelling must parse to the same path too.
+	if back, err := bip32path.ParsePath(refString(c.Path)); err != nil || !equal(back, c.Path) {
+		return info, fmt.Errorf("ParsePath(%q) = %v,%v; want %v", refString(c.Path), []uint32(back), err, c.Path)
 	}
 	back, err := bip32path.ParsePath(s)
 	if err != nil || !equal(back, c.Path) {
 		return info, fmt.Errorf("ParsePath(%q) = %v,%v; want %v", s, []uint32(back), err, c.Path)
 	}
 	mt, err := p.MarshalText()
-	if err != nil || !bytes.Equal(mt, []byte(s)) {
-		return info, fmt.Errorf("MarshalText = %q,%v; String = %q", mt, err, s)
+	if err != nil {
+		return info, fmt.Errorf("MarshalText: %v", err)
 	}
 	var q bip32path.Path
 	if err := q.UnmarshalText(mt); err != nil || !equal(q, c.Path) {
@@ -350,7 +348,7 @@ func checkPath(c pathCase) (h.Info, error) {
 	if back, err := bip32path.ParsePath(alt); err != nil || !equal(back, c.Path) {
 		return info, fmt.Errorf("ParsePath(%q) = %v,%v; want %v", alt, []uint32(back), err, c.Path)
 	}
-	if len(c.Path) > 0 {
+	if len(c.Path) > 0 && strings.HasPrefix(s, "m/") {
 		alt2 := strings.TrimPrefix(s, "m/")
 		if back, err := bip32path.ParsePath(alt2); err != nil || !equal(back, c.Path) {
 			return info, fmt.Errorf("ParsePath(%q) = %v,%v; want %v", alt2, []uint32(back), err, c.Path)
